@@ -1599,6 +1599,27 @@ def std_model(an, frame, ev, path):
             return ("agg", "std::option::Option", 1, "Some", (("agg", "std::cmp::Ordering", 1, "Equal", ()),))
     if re.match(r"^(core|std)::num::<impl (usize|u8|u32|u64)>::(saturating_sub|saturating_add|wrapping_sub|wrapping_add)$", d) and is_int(a[1]) and a[1][1] == 0:
         return a[0]
+    m = re.match(r"^(?:core|std)::num::<impl u8>::(to_ascii_uppercase|to_ascii_lowercase|is_ascii\w*|eq_ignore_ascii_case)$", d)
+    if m and a:
+        xs = [(_unref(frame, x) if isinstance(x, tuple) and x[0] == "ref" else x) for x in a]
+        if all(is_int(x) for x in xs):
+            v = xs[0][1] & 0xFF
+            fn = m.group(1)
+            ch = chr(v)
+            asc = v < 128
+            if fn == "to_ascii_uppercase":
+                return I(v - 32 if 97 <= v <= 122 else v, "u8")
+            if fn == "to_ascii_lowercase":
+                return I(v + 32 if 65 <= v <= 90 else v, "u8")
+            if fn == "eq_ignore_ascii_case" and len(xs) == 2:
+                lo = lambda t: t + 32 if 65 <= t <= 90 else t
+                return I(1 if lo(v) == lo(xs[1][1] & 0xFF) else 0, "bool")
+            preds = {"is_ascii": asc, "is_ascii_alphabetic": asc and ch.isalpha(), "is_ascii_uppercase": 65 <= v <= 90,
+                     "is_ascii_lowercase": 97 <= v <= 122, "is_ascii_digit": 48 <= v <= 57, "is_ascii_alphanumeric": asc and ch.isalnum(),
+                     "is_ascii_whitespace": v in (32, 9, 10, 12, 13), "is_ascii_punctuation": asc and (33 <= v <= 47 or 58 <= v <= 64 or 91 <= v <= 96 or 123 <= v <= 126),
+                     "is_ascii_graphic": 33 <= v <= 126, "is_ascii_control": v < 32 or v == 127, "is_ascii_hexdigit": asc and ch in "0123456789abcdefABCDEF"}
+            if fn in preds:
+                return I(1 if preds[fn] else 0, "bool")
     m = re.match(r"^(?:core|std)::num::<impl (u8|u16|u32|u64|u128|usize)>::(checked_sub)$", d)
     if m and len(a) == 2 and all(is_int(x) for x in a):
         x, y = a[0][1], a[1][1]
